@@ -309,7 +309,7 @@ func e2eHistoryPairs(c *e2eCtx) error {
 	c.res.Rule = fmt.Sprintf("%d generated in-scope multi-package Go projects (old tree, new tree); for each, TWO git histories with identical old-revision tree and identical new-revision tree "+
 		"(tree hashes checked with git rev-parse): history A is always the squashed one (old tree in one commit, new tree in one commit, increasing dates, loose store), history B is drawn from "+
 		"old tree reached in 1-3 commits × {squashed, split into 2-6 commits, split and reordered, feature branch + main work merged with --no-ff, diverged (old = tip of main is not an ancestor of new = tip of a branch forked before it)} × added-then-reverted change × extra commits touching only non-Go files "+
-		"× timestamps {increasing, all in the same second, feature older than main, every commit older than its parent} × {loose, git gc packed}; × precision {2, 3, INIT} (each pair runs all three) × granularity (rotating line/patch/scope/func) × threads {1,4 (loose only)}: "+
+		"× timestamps {increasing, all in the same second, feature older than main, every commit older than its parent} × {loose, git gc packed}; × precision {2, 3, INIT} (each pair runs all three) × granularity (rotating line/patch/scope/func) × threads {1,4} × appVersion/appName {plain, 7 hex digits}: "+
 		"the real `goat track` binary in both, exit status and every file of the work tree outside .git must be byte-identical; non-trivial = the instrumented tree differs from the new revision. "+
 		"Exactness clause: %d unique-line histories × precision 1,2,3 through the real getDiff: reported lines = exactly the lines of the new file absent from the old file", n, n*2)
 	c.parallel(n, func(i int, r *rand.Rand) {
@@ -370,12 +370,20 @@ func e2eHistoryPairs(c *e2eCtx) error {
 			if p.ExtraNew["vendor/v/v.go"] != "" {
 				cfg.Ignores = []string{".git", "vendor", "testdata", "ignoredir", "pkg/l0/ignored_file.go"}
 			}
+			// configured values that look like commit metadata must stay what the user wrote
+			switch (i + mi) % 3 {
+			case 1:
+				cfg.AppVersion = "cafe001"
+			case 2:
+				cfg.AppVersion = "2406001"
+				cfg.AppName = "0123abc"
+			}
 			run := func(dir string, packed bool) (proj.Run, map[string]string) {
 				proj.Git(dir, 0, "reset", "-q", "--hard")
 				proj.Git(dir, 0, "clean", "-fdxq")
 				cc := cfg
 				cc.Threads = 1
-				if !packed && (i+mi)%2 == 0 {
+				if (i+mi)%2 == 0 { // loose and packed stores alike (object reads are serialised since fix 11c0d4a)
 					cc.Threads = 4
 				}
 				proj.WriteConfig(dir, cc)
